@@ -147,13 +147,25 @@ class P:
                 self.i += 1
                 if self.atid("mut"):
                     self.i += 1
-                name = self.eatid()
-                self.eat("=")
-                stmts.append(("let", name, self.expr()))
+                if self.at("("):
+                    pat = self.pattern()
+                    self.eat("=")
+                    stmts.append(("letpat", pat, self.expr()))
+                else:
+                    name = self.eatid()
+                    self.eat("=")
+                    stmts.append(("let", name, self.expr()))
                 self.eat(";")
             elif self.atid("return"):
                 self.i += 1
                 stmts.append(("return", self.expr()))
+                self.eat(";")
+            elif self.peek()[0] == "id" and self.at(".", 1) and self.peek(2)[0] == "id" and self.at("=", 3):
+                name = self.eatid()
+                self.eat(".")
+                fld = self.eatid()
+                self.eat("=")
+                stmts.append(("fassign", name, fld, self.expr()))
                 self.eat(";")
             elif self.peek()[0] == "id" and self.at("=", 1):
                 name = self.eatid()
@@ -210,6 +222,10 @@ class P:
             if self.at("."):
                 self.i += 1
                 name = self.eatid()
+                if self.at("::") and self.at("<", 1):
+                    self.i += 2
+                    self.eatid()
+                    self.eat(">")
                 if self.at("("):
                     e = ("method", e, name, self.args())
                 else:
@@ -259,6 +275,40 @@ class P:
             return self.ifexpr()
         if k == "id" and v == "match":
             return self.matchexpr()
+        if self.at("|"):
+            self.i += 1
+            params = []
+            while not self.at("|"):
+                params.append(self.eatid())
+                if self.at(","):
+                    self.i += 1
+            self.eat("|")
+            return ("closure", params, self.expr())
+        if k == "id" and self.at("!", 1) and self.at("[", 2):
+            name = self.eatid()
+            self.eat("!")
+            self.eat("[")
+            a = []
+            while not self.at("]"):
+                a.append(self.expr())
+                if self.at(","):
+                    self.i += 1
+            self.eat("]")
+            return ("macro", name, a)
+        if k == "id" and v == "CallStack" and self.at("{", 1):
+            self.i += 2
+            fields = []
+            while not self.at("}"):
+                fname = self.eatid()
+                if self.at(":"):
+                    self.i += 1
+                    fields.append((fname, self.expr()))
+                else:
+                    fields.append((fname, ("path", [fname])))
+                if self.at(","):
+                    self.i += 1
+            self.eat("}")
+            return ("struct", "CallStack", fields)
         if k == "id":
             return ("path", self.path())
         die("%s: unexpected token %r" % (self.what, self.peek()))
@@ -372,6 +422,7 @@ FIELDS = {"exception_code": "e_code e", "exception_flags": "e_flags e", "number_
           "exception_address": "e_addr e"}
 OS_CTOR = {"MacOs": "OsMac", "Ios": "OsIos", "Linux": "OsLinux", "Android": "OsAndroid", "Windows": "OsWindows",
            "Solaris": "OsSolaris", "Ps3": "OsPs3", "NaCl": "OsNaCl"}
+PW_CTOR = {"Bits32": "W32", "Bits64": "W64", "Unknown": "WUnknown"}
 CPU_CTOR = {"X86": "X86", "X86_64": "X86_64", "Ppc": "Ppc", "Ppc64": "Ppc64", "Sparc": "Sparc", "Arm": "Arm", "Arm64": "Arm64",
             "Mips": "Mips", "Mips64": "Mips64"}
 FAMILIES = ["MacGeneral", "MacBadAccessKern", "MacBadAccessArm", "MacBadAccessPpc", "MacBadAccessX86", "MacBadInstructionArm",
@@ -415,6 +466,12 @@ class Exec:
                 return k(env[segs[0]], env)
             if len(segs) >= 2 and segs[-2] in enums:
                 return k(("z", str(enum_const(segs[-2], segs[-1]))), env)
+            if len(segs) == 2 and segs[0] == "Os" and segs[1] in OS_CTOR:
+                return k(("ctor", OS_CTOR[segs[1]]), env)
+            if len(segs) == 2 and segs[0] == "Cpu" and segs[1] in CPU_CTOR:
+                return k(("ctor", CPU_CTOR[segs[1]]), env)
+            if len(segs) == 2 and segs[0] == "PointerWidth" and segs[1] in PW_CTOR:
+                return k(("ctor", PW_CTOR[segs[1]]), env)
             self.die("unknown path %s" % "::".join(segs))
         if t == "field":
             return self.ev(e[1], env, lambda v, env2: k(self.field(v, e[2]), env2))
@@ -503,9 +560,11 @@ class Exec:
         def done(a, env2):
             if segs == ["Some"] and len(a) == 1:
                 return k(("some", a[0]), env2)
-            if len(segs) >= 2 and segs[-2] in enums and segs[-1] in ("from_u32", "from_u64") and len(a) == 1:
-                if segs[-2] not in ENUM_COQ:
-                    self.die("enumeration %s has no id in the model" % segs[-2])
+            if len(segs) >= 2 and segs[-2] in ENUM_COQ and segs[-1] in ("from_u32", "from_u64") and len(a) == 1:
+                return k(("member", segs[-2], self.z(a[0])), env2)
+            if segs in (["Os", "Unknown"], ["Cpu", "Unknown"]) and len(a) == 1:
+                return k(("ctor", "OsUnknown" if segs[0] == "Os" else "CpuUnknown"), env2)
+            if len(segs) >= 2 and segs[-2] in enums and segs[-1] in ("from_u32", "from_u16") and segs[-2] in ("PlatformId", "ProcessorArchitecture") and len(a) == 1:
                 return k(("member", segs[-2], self.z(a[0])), env2)
             if len(segs) == 2 and segs[0] in ("Self", "CrashReason") and segs[1] in FAMILIES:
                 return k(("reason", "(%s, [%s])" % (segs[1], "; ".join(self.z(x) for x in a))), env2)
@@ -595,6 +654,8 @@ class Exec:
             return "os_eqb o %s" % OS_CTOR[p[1][1]]
         if v[0] == "member" and p[0] == "pcall" and p[1] == ["Some"] and p[2][0][0] == "ppath":
             segs = p[2][0][1]
+            if len(segs) == 1:
+                segs = [v[1], segs[0]]                       # `use md::ProcessorArchitecture::*`
             if segs[-2] != v[1]:
                 self.die("pattern of another enumeration")
             # E::from_uN(x) == Some(E::NAME)  <->  x = value(NAME): NAME is a member of E by construction
@@ -631,13 +692,15 @@ class Exec:
                     for p in pats:
                         if v == ("cpu",) and p[0] == "ppath" and p[1][0] == "Cpu" and p[1][1] in CPU_CTOR:
                             ctors.append(CPU_CTOR[p[1][1]])
+                        elif v == ("cpu",) and p == ("pcall", ["Cpu", "Unknown"], [("pwild",)]):
+                            ctors.append("CpuUnknown")
                         elif v == ("pw",) and p == ("ppath", ["PointerWidth", "Bits32"]):
                             ctors.append("W32")
                         else:
                             self.die("unsupported cpu pattern %r" % (p,))
                     out.append((ctors, body(b)))
-                if out[-1][0] is not None:
-                    self.die("match on the cpu without a wildcard arm")
+                if out[-1][0] is not None and sorted(c for cs, _ in out for c in cs) != sorted(list(CPU_CTOR.values()) + ["CpuUnknown"]):
+                    self.die("match on the cpu is neither exhaustive nor closed by a wildcard arm")
                 return ("matchenum", "c" if v == ("cpu",) else "pointer_width c", out)
             # everything else: a chain of tests in arm order
             def chain(i):
@@ -674,6 +737,8 @@ def show_value(v, want, fn):
             return v[1]
     elif want == "z" and v[0] == "z":
         return v[1]
+    elif want == "ctor" and v[0] == "ctor":
+        return v[1]
     die("%s: result %r is not a %s" % (fn, v, want))
 
 
@@ -694,7 +759,89 @@ def show(t, want, fn, ind):
     die("tree %r" % (t[0],))
 
 
+fmt_src = open(os.path.join(repo, "minidump-common/src/format.rs")).read()
+for name in ("PlatformId", "ProcessorArchitecture"):
+    m = re.search(r"((?:#\[[^\]]*\]\s*)*)pub enum %s\s*\{(.*?)\n\}" % name, fmt_src, re.S)
+    if not m or "FromPrimitive" not in m.group(1):
+        die("format.rs: enum %s (FromPrimitive) not found" % name)
+    ents = {}
+    for ent in re.sub(r"//[^\n]*", "", m.group(2)).split(","):
+        ent = ent.strip()
+        if not ent:
+            continue
+        mm = re.match(r"^(\w+)\s*=\s*(0x[0-9a-fA-F_]+|[0-9_]+)$", ent)
+        if not mm:
+            die("format.rs: unrecognised entry %r in %s" % (ent, name))
+        ents[mm.group(1)] = int(mm.group(2).replace("_", ""), 0)
+    if len(set(ents.values())) != len(ents):
+        die("duplicate discriminants in " + name)
+    enums[name] = ents
+
+
+def flag_bits(struct):
+    m = re.search(r"pub struct %s\s*:\s*u32\s*\{(.*?)\}" % struct, fmt_src, re.S)
+    if not m:
+        die("format.rs: bitflags %s not found" % struct)
+    out = {}
+    for ent in re.sub(r"//[^\n]*", "", m.group(1)).split(";"):
+        ent = ent.strip()
+        if not ent:
+            continue
+        mm = re.match(r"^const\s+(\w+)\s*=\s*(?:1\s*<<\s*([0-9]+)|(0x[0-9a-fA-F_]+|[0-9_]+))$", ent)
+        if not mm:
+            die("format.rs: unrecognised flag %r in %s" % (ent, struct))
+        v = 1 << int(mm.group(2)) if mm.group(2) else int(mm.group(3).replace("_", ""), 0)
+        if v & (v - 1) or v == 0:
+            die("flag %s of %s is not a single bit" % (mm.group(1), struct))
+        out[mm.group(1)] = v.bit_length() - 1
+    return out
+
+
 src = open(os.path.join(repo, "minidump/src/minidump.rs")).read()
+nows = re.sub(r"\s+", "", re.sub(r"//[^\n]*", "", src))
+bp_bits, misc_bits = flag_bits("BreakpadInfoValid"), flag_bits("MiscInfoFlags")
+consts = []
+# MinidumpBreakpadInfo::read: which validity flag guards which id
+if "letflags=md::BreakpadInfoValid::from_bits_truncate(raw.validity);" not in nows:
+    die("MinidumpBreakpadInfo::read no longer decodes raw.validity with from_bits_truncate")
+for field in ("dump_thread_id", "requesting_thread_id"):
+    m = re.search(r"let%s=ifflags\.contains\(md::BreakpadInfoValid::(\w+)\)\{Some\(raw\.%s\)\}else\{None\};" % (field, field), nows)
+    if not m or m.group(1) not in bp_bits:
+        die("MinidumpBreakpadInfo::read: the guard of %s is not recognised" % field)
+    consts.append(("GEN_BP_BIT_%s" % field, bp_bits[m.group(1)]))
+# RawMiscInfo accessors: the flag that guards process_id / process_create_time, and how the macro tests it
+if "ifmd::MiscInfoFlags::from_bits_truncate(raw.flags1).contains(md::MiscInfoFlags::$flag){Some(&raw.$name)}else{None}" not in nows:
+    die("misc_accessors!: the flag-guarded accessor no longer tests from_bits_truncate(raw.flags1).contains($flag)")
+for field in ("process_id", "process_create_time"):
+    m = re.search(r"1:%s if(\w+)->u32," % field, re.sub(r"[ \t\n]+", "", re.sub(r"//[^\n]*", "", src)).replace("if", " if"))
+    if not m or m.group(1) not in misc_bits:
+        die("misc_accessors!: the guard of %s is not recognised" % field)
+    consts.append(("GEN_MISC_BIT_%s" % field, misc_bits[m.group(1)]))
+# MinidumpContext::read: the architectures that have a context reader
+ctx_src = open(os.path.join(repo, "minidump/src/context.rs")).read()
+i = ctx_src.find("match md::ProcessorArchitecture::from_u16(system_info.raw.processor_architecture) {")
+j = ctx_src.find("_ => Err(ContextError::UnknownCpuContext),", i)
+if i < 0 or j < 0:
+    die("context.rs: MinidumpContext::read's match on the raw architecture not found")
+ctx_archs = []
+for m in re.finditer(r"(?m)^ {12}((?:Some\(\w+\)\s*\|?\s*)+)=> \{", ctx_src[i:j]):
+    for a in re.findall(r"Some\((\w+)\)", m.group(1)):
+        ctx_archs.append(enum_const("ProcessorArchitecture", a))
+if len(ctx_archs) < 3 or len(set(ctx_archs)) != len(ctx_archs):
+    die("context.rs: arms of MinidumpContext::read not recognised")
+
+sysinfo_src = open(os.path.join(repo, "minidump/src/system_info.rs")).read()
+PLATFORM_SPEC = [
+    ("from_platform_id", "impl Os {", "gen_os_of_platform", "(id : Z)", "os", {"id": ("z", "id")}),
+    ("from_processor_architecture", "impl Cpu {", "gen_cpu_of_arch", "(arch : Z)", "cpu", {"arch": ("z", "arch")}),
+    ("pointer_width", "impl Cpu {", "gen_pointer_width", "(c : cpu)", "pwidth", {"self": ("cpu",)}),
+]
+platform_defs = []
+for fn, hdr, coqname, binders, ty, env0 in PLATFORM_SPEC:
+    sig, body = function_body(sysinfo_src, hdr, fn)
+    tree = Exec(fn).block(body[1], 0, dict(env0), lambda v, env: ("leaf", v))
+    platform_defs.append("(* %s *)\nDefinition %s %s : %s :=\n%s.\n" % (sig, coqname, binders, ty, show(tree, "ctor", fn, 1)))
+
 SPEC = [   # fn, impl header, Coq name, Coq binders, result kind, initial environment
     ("from_windows_error_with_facility", "impl CrashReason {", "gen_windows_error_with_facility", "(error_code : Z)", "optreason",
      {"error_code": ("z", "error_code")}),
@@ -720,6 +867,341 @@ for fn, hdr, coqname, binders, kind, env0 in SPEC:
         die("get_crash_address consults an enumeration beyond the constants of its patterns")
     ty = {"reason": "reason", "optreason": "option reason", "z": "Z"}[kind]
     defs.append("(* %s *)\nDefinition %s %s%s : %s :=\n%s.\n" % (sig, coqname, lkb, binders, ty, text))
+
+# ------------------------------------------------------------------------------------------------ processor.rs
+# MinidumpInfo::into_process_state: the thread -> CallStack closure, process id / create time, the stack memory of a walk.
+# values: ("z", coq) ("nat", coq) ("optz", coq) ("optnat", coq) ("optctx", coq) ("ctxv", coq) ("optname", coq) ("info", ctor)
+#         ("frames", coq) ("frame", coq) ("cs", {id,name,info,ctx}) ("tuple", [..]) ("b", coq) ("closure", params, body, env)
+#         ("optmem", coq) ("optsp", coq) ("sp", coq) ("optunit", coq) and opaque handles ("selfp",) ("thread",) ...
+INFO_CTOR = {"Ok": "CsOk", "DumpThreadSkipped": "CsDumpThreadSkipped", "MissingContext": "CsMissingContext"}
+
+
+class ExecP(Exec):
+    def ev(self, e, env, k):
+        t = e[0]
+        if t == "path" and len(e[1]) == 2 and e[1][0] == "CallStackInfo" and e[1][1] in INFO_CTOR:
+            return k(("info", INFO_CTOR[e[1][1]]), env)
+        if t == "path" and e[1] == ["FrameTrust", "Context"]:
+            return k(("trust",), env)
+        if t == "closure":
+            return k(("closure", e[1], e[2], env), env)
+        if t == "not":
+            return self.ev(e[1], env, lambda v, env2: k(("b", "negb (%s)" % self.b(v)), env2))
+        if t == "bin" and e[1] == "==":
+            def l(a, env2):
+                def r(b, env3):
+                    if a[0] == "optz" and b[0] == "optz":
+                        return k(("b", "optz_eqb (%s) (%s)" % (a[1], b[1])), env3)
+                    self.die("== on %r and %r" % (a, b))
+                return self.ev(e[3], env2, r)
+            return self.ev(e[2], env, l)
+        if t == "macro":
+            if e[1] != "vec":
+                self.die("macro %s!" % e[1])
+            def done(a, env2):
+                if not a:
+                    return k(("frames", "None"), env2)
+                if len(a) == 1 and a[0][0] == "frame":
+                    return k(("frames", "Some %s" % a[0][1]), env2)
+                self.die("vec! of %r" % (a,))
+            return self.args(e[2], env, done)
+        if t == "struct":
+            names = [f for f, _ in e[2]]
+            if sorted(names) != ["frames", "info", "last_error_value", "thread_id", "thread_name"]:
+                self.die("fields of the CallStack literal: %s" % names)
+            def done(a, env2):
+                d = dict(zip(names, a))
+                if d["frames"][0] != "frames" or d["info"][0] != "info" or d["thread_name"][0] != "optname" or d["thread_id"][0] != "z":
+                    self.die("CallStack literal built from %r" % (d,))
+                return k(("cs", {"id": d["thread_id"][1], "name": d["thread_name"][1], "info": d["info"][1], "ctx": d["frames"][1]}), env2)
+            return self.args([x for _, x in e[2]], env, done)
+        return Exec.ev(self, e, env, k)
+
+    def b(self, v):
+        if v[0] != "b":
+            self.die("expected a boolean, got %r" % (v,))
+        return v[1]
+
+    def field(self, v, name):
+        table = {
+            (("selfp",), "dump_thread_id"): ("optz", "dump_tid d"), (("selfp",), "requesting_thread_id"): ("optz", "req_tid d"),
+            (("selfp",), "thread_names"): ("names",), (("selfp",), "dump_system_info"): ("sysarg",), (("selfp",), "misc_info"): ("optmisc",),
+            (("selfp",), "linux_proc_status"): ("optstatus",), (("selfp",), "system_info"): ("sysinfo",), (("selfp",), "memory_list"): ("memlist",),
+            (("sysinfo",), "cpu"): ("cpuarg",),
+            (("thread",), "raw"): ("thraw",), (("thraw",), "thread_id"): ("z", "t_id t"),
+            (("stack",), "frames"): ("framesof",),
+        }
+        if (v, name) in table:
+            return table[(v, name)]
+        if v[0] == "misc" and name == "raw":
+            return ("miscraw", v[1])
+        if v[0] == "status" and name == "pid":
+            return ("z", "status_pid %s" % v[1])
+        if v[0] == "ctxframe" and name == "context":
+            return ("framectx", v[1])
+        self.die("unknown field .%s of %r" % (name, v))
+
+    def call(self, e, env, k):
+        fn = e[1]
+        segs = fn[1] if fn[0] == "path" else None
+        def done(a, env2):
+            if segs == ["Some"] and len(a) == 1 and a[0][0] == "z":
+                return k(("optz", "Some (%s)" % a[0][1]), env2)
+            if segs == ["Some"] and len(a) == 1 and a[0][0] == "nat":
+                return k(("optnat", "Some %s" % a[0][1]), env2)
+            if segs == ["CallStack", "with_info"] and len(a) == 2 and a[0][0] == "z" and a[1][0] == "info":
+                return k(("cs", {"id": a[0][1], "name": "None", "info": a[1][1], "ctx": "None"}), env2)
+            if segs == ["StackFrame", "from_context"] and len(a) == 2 and a[0][0] == "ctxv" and a[1] == ("trust",):
+                return k(("frame", a[0][1]), env2)
+            self.die("unknown function %s%r" % ("::".join(segs or ["?"]), tuple(a)))
+        return self.args(e[2], env, done)
+
+    def apply(self, clo, vals, k, env_after):
+        _, params, body, cenv = clo
+        if len(params) != len(vals):
+            self.die("closure arity")
+        env2 = dict(cenv)
+        env2.update(zip(params, vals))
+        return self.ev(body, env2, lambda v, _e: k(v, env_after))
+
+    def method(self, e, env, k):
+        name = e[2]
+        def recv(v, env2):
+            def done(a, env3):
+                K = lambda val: k(val, env3)
+                if name in ("as_ref", "as_deref", "clone") and not a and v[0] in ("optctx", "optmisc", "optmem", "ctxv"):
+                    return K(v)
+                if name == "cloned" and not a and v[0] == "optzref":
+                    return K(("optz", v[1]))
+                if name == "or" and len(a) == 1 and v[0] == a[0][0] and v[0] in ("optz", "optctx", "optmem"):
+                    return K((v[0], "%s (%s) (%s)" % ("or_ctx" if v[0] == "optctx" else "or_optz", v[1], a[0][1])))
+                if name == "get_name" and v == ("names",) and len(a) == 1 and a[0][0] == "z":
+                    return K(("optname", "get_name (d_names d) (%s)" % a[0][1]))
+                if name == "map" and v[0] == "optname" and len(a) == 1 and a[0][0] == "closure" and \
+                        a[0][2] == ("method", ("path", [a[0][1][0]]), "into_owned", []):
+                    return K(v)                                   # Cow -> String: the same name
+                if name == "context" and v == ("thread",) and a == [("sysarg",), ("optmisc",)]:
+                    return K(("optctx", "tag_ctx FromThread (t_ctx t)"))
+                if name == "last_error" and v == ("thread",):
+                    return K(("ignored",))
+                if name == "process_id" and v[0] == "miscraw" and not a:
+                    return K(("optzref", "misc_process_id %s" % v[1]))
+                if name == "process_create_time" and v[0] == "misc" and not a:
+                    return K(("optz", "misc_create_time %s" % v[1]))
+                if name == "map" and v == ("optstatus",) and len(a) == 1 and a[0][0] == "closure":
+                    return self.apply(a[0], [("status", "s")], lambda r, e4: k(("optz", "option_map (fun s => %s) (d_status d)" % self.z(r)), e4), env3)
+                if name == "stack_memory" and v == ("thread",) and a == [("memlist",)]:
+                    return K(("optmem", "thread_stack mems t"))
+                if name == "first" and v == ("framesof",) and not a:
+                    return K(("optframe",))
+                if name == "map" and v == ("optframe",) and len(a) == 1 and a[0][0] == "closure":
+                    return self.apply(a[0], [("ctxframe", "f")], lambda r, e4: k(("optsp", "option_map (fun f => %s) frame0" % self.sp(r)), e4), env3)
+                if name == "get_stack_pointer" and v[0] == "framectx" and not a:
+                    return K(("sp", "c_sp (snd %s)" % v[1]))
+                if name == "and_then" and v[0] == "optmem" and len(a) == 1 and a[0][0] == "closure":
+                    return self.apply(a[0], [("mem", "memory")], lambda r, e4: k(("optunit", "opt_and_then (%s) (fun memory => %s)" % (v[1], self.unit(r))), e4), env3)
+                if name == "get_memory_at_address" and v[0] == "mem" and len(a) == 1 and a[0][0] == "sp":
+                    return K(("optunit", "get_u64 mems %s (%s)" % (v[1], a[0][1])))
+                if name == "is_some" and v[0] == "optunit" and not a:
+                    return K(("b", "opt_is_some (%s)" % v[1]))
+                if name == "memory_at_address" and v == ("memlist",) and len(a) == 1 and a[0][0] == "sp":
+                    return K(("optmem", "mem_at mems (%s)" % a[0][1]))
+                self.die("unknown method .%s%r on %r" % (name, tuple(a), v))
+            return self.args(e[3], env2, done)
+        return self.ev(e[1], env, recv)
+
+    def sp(self, v):
+        if v[0] != "sp":
+            self.die("expected a stack pointer, got %r" % (v,))
+        return v[1]
+
+    def unit(self, v):
+        if v[0] != "optunit":
+            self.die("expected the result of a memory read, got %r" % (v,))
+        return v[1]
+
+    def block(self, stmts, i, env, k):
+        if i < len(stmts) and stmts[i][0] == "letpat":
+            pat, ex = stmts[i][1], stmts[i][2]
+            if pat[0] != "ptuple" or any(q[0] != "pbind" for q in pat[1]):
+                self.die("unsupported let pattern")
+            def bind(v, env2):
+                if v[0] != "tuple" or len(v[1]) != len(pat[1]):
+                    self.die("tuple pattern against %r" % (v,))
+                env3 = dict(env2)
+                env3.update({q[1]: w for q, w in zip(pat[1], v[1])})
+                return self.block(stmts, i + 1, env3, k)
+            return self.ev(ex, env, bind)
+        if i < len(stmts) and stmts[i][0] == "fassign":
+            _, name, fld, ex = stmts[i]
+            def upd(v, env2):
+                cs = env2.get(name)
+                if not cs or cs[0] != "cs" or fld != "thread_name" or v[0] != "optname":
+                    self.die("unsupported field assignment %s.%s" % (name, fld))
+                env3 = dict(env2)
+                env3[name] = ("cs", dict(cs[1], name=v[1]))
+                return self.block(stmts, i + 1, env3, k)
+            return self.ev(ex, env, upd)
+        if i < len(stmts) and stmts[i][0] == "return":
+            return self.ev(stmts[i][1], env, lambda v, env2: ("leaf", ("pair", v, env2.get("requesting_thread"))))
+        return Exec.block(self, stmts, i, env, k)
+
+    def ifx(self, e, env, k):
+        _, cond, then, els = e
+        if cond[0] == "iflet":
+            pat, ex = cond[1], cond[2]
+            if not (pat[0] == "pcall" and pat[1] == ["Some"] and len(pat[2]) == 1 and pat[2][0][0] == "pbind"):
+                self.die("unsupported `if let` pattern")
+            var = pat[2][0][1]
+            def got(v, env2):
+                if v[0] == "optctx":
+                    scrut, bound = v[1], ("ctxv", var)
+                elif v == ("optmisc",):
+                    scrut, bound = "d_misc d", ("misc", var)
+                elif v[0] == "optsp":
+                    scrut, bound = v[1], ("sp", var)
+                else:
+                    self.die("`if let Some(..)` on %r" % (v,))
+                def tb():
+                    envt = dict(env2)
+                    envt[var] = bound
+                    return self.block(then[1], 0, envt, lambda val, env3: k(val, self.leave(env2, env3)))
+                def eb():
+                    if els is None:
+                        return k(("unit",), env2)
+                    return self.block(els[1], 0, dict(env2), lambda val, env3: k(val, self.leave(env2, env3)))
+                return ("matchopt", scrut, var, tb(), eb())
+            return self.ev(ex, env, got)
+        return Exec.ifx(self, e, env, k)
+
+
+def show_p(t, leaf, ind):
+    pad = "  " * ind
+    if t[0] == "leaf":
+        return pad + leaf(t[1])
+    if t[0] == "if":
+        return "%sif %s then\n%s\n%selse\n%s" % (pad, t[1], show_p(t[2], leaf, ind + 1), pad, show_p(t[3], leaf, ind + 1))
+    if t[0] == "matchopt":
+        return "%smatch %s with\n%s| Some %s =>\n%s\n%s| None =>\n%s\n%send" % (
+            pad, t[1], pad, t[2], show_p(t[3], leaf, ind + 1), pad, show_p(t[4], leaf, ind + 1), pad)
+    die("tree %r" % (t[0],))
+
+
+psrc = open(os.path.join(repo, "minidump-processor/src/processor.rs")).read()
+i0 = psrc.find("pub async fn into_process_state")
+if i0 < 0:
+    die("processor.rs: into_process_state not found")
+i1 = psrc.find("\n    }\n", i0)
+pbody = psrc[i0:]
+pnows = re.sub(r"\s+", "", re.sub(r"//[^\n]*", "", pbody))
+for need in (   # the locals the closure captures, and where its results go
+        "letcrashing_thread_id=self.exception.as_ref().map(|e|e.get_crashing_thread_id());",
+        "let(exception_info,exception_context)=matchexception_details{Some(details)=>(Some(details.info),details.context),None=>(None,None),};",
+        "letmutrequesting_thread=None;letthreads=self.thread_list.threads.iter().enumerate().map(|(i,thread)|{",
+        "}).collect();",
+        "time:SystemTime::UNIX_EPOCH+Duration::from_secs(dump.header.time_date_stamp asu64),".replace(" ", ""),
+        "letmutstate=ProcessState{process_id,", "process_create_time,", "exception_info,", "requesting_thread,", "threads,",
+        "modules:self.modules,", "unloaded_modules:self.unloaded_modules,",
+        ".threads.iter_mut().zip(self.thread_list.threads.iter()).enumerate().map(|(i,(stack,thread))|asyncmove{",
+        "walk_stack(i,", "stack,stack_memory,modules,system_info,symbol_provider,).await;"):
+    if need not in pnows:
+        die("into_process_state: expected `%s`" % need)
+
+
+def braced(text, start):
+    j = text.index("{", start)
+    depth, k = 0, j
+    while True:
+        depth += {"{": 1, "}": -1}.get(text[k], 0)
+        k += 1
+        if depth == 0:
+            return text[j:k]
+
+
+def parse_block(text, what):
+    p = P(lex(text), what)
+    b = p.block()
+    if p.peek()[0] != "eof":
+        die("%s: trailing tokens" % what)
+    return b
+
+
+# (a) the closure
+m = re.search(r"\.map\(\|\(i, thread\)\| \{", pbody)
+if not m:
+    die("into_process_state: the thread closure not found")
+clo = parse_block(braced(pbody, m.start()), "thread closure")
+envc = {"self": ("selfp",), "thread": ("thread",), "i": ("nat", "i"), "requesting_thread": ("optnat", "req"),
+        "crashing_thread_id": ("optz", "crash_tid d"), "exception_context": ("optctx", "tag_ctx FromException (exc_ctx d)")}
+xp = ExecP("thread closure")
+tree_c = xp.block(clo[1], 0, dict(envc), lambda v, env: ("leaf", ("pair", v, env["requesting_thread"])))
+
+
+def leaf_cs(v):
+    if v[0] != "pair" or v[1][0] != "cs" or v[2] is None or v[2][0] != "optnat":
+        die("thread closure: result %r" % (v,))
+    c = v[1][1]
+    return "({| cs_id := %s; cs_name := %s; cs_info := %s; cs_ctx := %s |}, %s)" % (c["id"], c["name"], c["info"], c["ctx"], v[2][1])
+
+
+# (b) process id / create time
+def let_expr(name):
+    mm = re.search(r"let %s = " % name, pbody)
+    if not mm:
+        die("into_process_state: `let %s` not found" % name)
+    depth, k = 0, mm.end()
+    while not (pbody[k] == ";" and depth == 0):
+        depth += {"{": 1, "}": -1, "(": 1, ")": -1}.get(pbody[k], 0)
+        k += 1
+    return parse_block("{" + pbody[mm.end():k] + "}", name)
+
+
+def leaf_optz(v):
+    if v[0] == "none":
+        return "None"
+    if v[0] != "optz":
+        die("process id / time: result %r" % (v,))
+    return v[1]
+
+
+tree_pid = ExecP("process_id").block(let_expr("process_id")[1], 0, {"self": ("selfp",)}, lambda v, env: ("leaf", v))
+tree_ct = ExecP("process_create_time").block(let_expr("process_create_time")[1], 0, {"self": ("selfp",)}, lambda v, env: ("leaf", v))
+
+# (c) the stack memory of a walk
+a = pbody.find("let mut stack_memory = thread.stack_memory(memory_list);")
+b = pbody.find("walk_stack(", a)
+if a < 0 or b < 0:
+    die("into_process_state: the stack memory statements not found")
+blk = parse_block("{" + pbody[a:b] + "}", "stack memory")
+tree_sm = ExecP("stack memory").block(blk[1], 0, {"thread": ("thread",), "memory_list": ("memlist",), "stack": ("stack",)},
+                                      lambda v, env: ("leaf", env["stack_memory"]))
+
+
+def leaf_mem(v):
+    if v[0] != "optmem":
+        die("stack memory: result %r" % (v,))
+    return v[1]
+
+
+pout = "\n".join([
+    "(* GENERATED by translate/c14_reason.py from minidump-processor/src/processor.rs (MinidumpInfo::into_process_state) - do not edit *)",
+    "From Coq Require Import ZArith List Bool.", "From RM Require Import C14.Model.", "Import ListNotations.", "Open Scope Z_scope.", "",
+    "(* the .map(|(i, thread)| ..) closure; req = the captured `requesting_thread` before this iteration *)",
+    "Definition gen_one_thread (d : dump) (i : nat) (t : thread) (req : option nat) : callstack * option nat :=",
+    show_p(tree_c, leaf_cs, 1) + ".", "",
+    "Definition gen_process_id (d : dump) : option Z :=", show_p(tree_pid, leaf_optz, 1) + ".", "",
+    "Definition gen_process_create_time (d : dump) : option Z :=", show_p(tree_ct, leaf_optz, 1) + ".", "",
+    "(* the memory handed to walk_stack; frame0 = stack.frames.first() *)",
+    "Definition gen_choose_stack (mems : list (Z * Z)) (t : thread) (frame0 : option (ctxsrc * ctx)) : option Z :=",
+    show_p(tree_sm, leaf_mem, 1) + ".", ""])
+ppath = os.path.join(outdir, "C14Process.v")
+try:
+    same = open(ppath).read() == pout
+except OSError:
+    same = False
+if not same:
+    os.makedirs(outdir, exist_ok=True)
+    open(ppath, "w").write(pout)
 
 # ------------------------------------------------------------------------------------------------ output
 out = ["(* GENERATED by translate/c14_reason.py from minidump/src/minidump.rs and minidump-common/src/errors/*.rs - do not edit *)",
@@ -749,6 +1231,13 @@ for en, var in (("ExceptionCodeWindows", "EXCEPTION_ACCESS_VIOLATION"), ("Except
     out.append("Definition GEN_%s : Z := %d." % (var, enum_const(en, var)))
 out.append("")
 out += defs
+out.append("(* ---- platform tables (minidump/src/system_info.rs, minidump-common/src/format.rs, minidump/src/context.rs) *)")
+out += platform_defs
+out.append("(* MinidumpContext::read has an arm for these raw architectures *)")
+out.append("Definition gen_arch_has_context (a : Z) : bool := existsb (Z.eqb a) [%s]." % "; ".join(map(str, ctx_archs)))
+out.append("(* bit numbers: BreakpadInfoValid flag guarding each id (MinidumpBreakpadInfo::read), MiscInfoFlags flag guarding each accessor *)")
+for n, v in consts:
+    out.append("Definition %s : Z := %d." % (n, v))
 text = "\n".join(out) + "\n"
 path = os.path.join(outdir, "C14Reason.v")
 os.makedirs(outdir, exist_ok=True)
